@@ -71,6 +71,7 @@ func (t *tr) lookupOutParam(callee string) (OutParam, bool) {
 }
 
 type FuncSpec struct {
+	Auto      bool              // inferred spec of a helper found by autofollow.go (emitted as `@[simp] def`)
 	File      string            // path relative to repo root
 	Name      string            // Go name, "Recv.Name" for methods
 	Lean      string            // Lean definition name
@@ -2456,7 +2457,11 @@ func translateFunc(fset *token.FileSet, fd *ast.FuncDecl, spec *FuncSpec) (strin
 	pos := fset.Position(fd.Pos())
 	var b strings.Builder
 	fmt.Fprintf(&b, "/-- translated from %s:%d `%s` -/\n", relPath(pos.Filename), pos.Line, spec.Name)
-	fmt.Fprintf(&b, "def %s (now : Int) %s : %s :=\n  %s\n", spec.Lean, strings.Join(spec.Params, " "), rt, body)
+	attr := ""
+	if spec.Auto {
+		attr = "@[simp] "
+	}
+	fmt.Fprintf(&b, "%sdef %s (now : Int) %s : %s :=\n  %s\n", attr, spec.Lean, strings.Join(spec.Params, " "), rt, body)
 	sort.Strings(t.unsup)
 	return b.String(), t.unsup
 }
